@@ -66,7 +66,7 @@ def walk(node, d, t, path, out, C, parent_ticked, is_child=False):
     # a per-tick delta is readable only during the cycle that produced it
     if not emod:
         readable = d["d"] not in ("<none>",)
-        lists = [x for x in ("add", "rem", "modk", "modi") if d.get(x)]
+        lists = [x for x in ("add", "rem", "modk", "modi", "dk") if d.get(x)]
         if lists:
             out.append((None, f"{path} t={t}: delta parts {lists} are non-empty in a cycle without a write"))
         elif readable and node.kind in ("ts",):
@@ -104,6 +104,14 @@ def walk(node, d, t, path, out, C, parent_ticked, is_child=False):
             if ch is not None:
                 walk(ch, cd, t, f"{path}[{kk}]", out, C, emod, True)
     elif k in ("tsl", "tsb"):
+        if k == "tsl" and emod and d.get("dk") is not None:
+            # the list's own delta must name exactly the children that were written in this cycle
+            C["list_delta_index_checks"] = C.get("list_delta_index_checks", 0) + 1
+            want = {i for i, ch in enumerate(node.children) if ch.lmt == t}
+            if set(d["dk"]) != want:
+                out.append((None, f"{path} t={t}: the list's delta lists indices {sorted(d['dk'])} but the children written in this cycle are {sorted(want)}"))
+        if len(d["ch"]) != len(node.children):
+            out.append((None, f"{path} t={t}: list has {len(d['ch'])} elements, expected {len(node.children)}"))
         for i, (ch, cd) in enumerate(zip(node.children, d["ch"])):
             walk(ch, cd, t, f"{path}.{i}", out, C, emod, True)
 
